@@ -552,12 +552,13 @@ def mps_overlap_log(Bra, Ket):
 
 
 def mpo_element(Bra, W, Ket):
-    """<Bra| W |Ket> for MPS tensor lists and MPO tensors (d_out, d_in, Dl, Dr)."""
+    """<Bra| W |Ket> for MPS tensor lists and MPO tensors (d_out, d_in, Dl, Dr); own contraction order (tensordot), independent of the library."""
     E = np.ones((1, 1, 1), dtype=complex)           # (bra bond, mpo bond, ket bond)
     for B, O, K in zip(Bra, W, Ket):
-        T = np.einsum('bwk,sbc->wksc', E, np.conj(np.asarray(B)))          # contract bra
-        T = np.einsum('wksc,stwx->kcxt', T, np.asarray(O))                  # contract operator (s = out, t = in)
-        E = np.einsum('kcxt,tkl->cxl', T, np.asarray(K))                    # contract ket
+        T = np.tensordot(E, np.asarray(K), axes=(2, 1))                      # b w t l
+        T = np.tensordot(T, np.asarray(O), axes=((1, 2), (2, 1)))            # b l s x   (w with Dl, t with d_in)
+        E = np.tensordot(np.conj(np.asarray(B)), T, axes=((0, 1), (2, 0)))   # c l x     (s with d_out, b with bra left bond)
+        E = E.transpose(0, 2, 1)                                             # c x l
     assert E.shape == (1, 1, 1)
     return complex(E[0, 0, 0])
 
